@@ -38,7 +38,7 @@ def c20_overlay(tmpdir):
 def _args(tier, seed):
     if tier == "quick":
         return ["-seed", seed, "-n", 400, "-big", 1, "-e2e", 9, "-errs"]
-    return ["-seed", seed, "-n", 3000, "-big", 3, "-e2e", 45, "-errs"]
+    return ["-seed", seed, "-n", 2000, "-big", 3, "-e2e", 45, "-errs"]
 
 
 SPEC = dict(
@@ -64,11 +64,11 @@ SPEC = dict(
          "status/version/headers; 1/16 match_until; 1/16 SendData; 2/16 ReadData on streams of 1-5 frames (half well-formed only: masked/unmasked, longer length "
          "forms, RSV bits; half with FIN-clear/close/other opcodes/lying or negative length fields/truncation); maskBytes, computeAcceptKey (digest from the driver's "
          "crypto/sha1 as the oracle for H), tokenListContainsValue, Upgrade with perturbed headers. Large messages: quick 65535, 65536 through SendData and a masked "
-         "65536 through ReadData; thorough also 65534, 65537, 70000, 128 KiB, 200 KiB, ~300 KiB, masked and not, sequences across the boundary, SendData->ReadData loops. "
+         "65536 through ReadData; thorough also 65534, 65537, 70000, 128 KiB, 200 KiB (masked through ReadData), ~300 KiB (SendData), masked and not, sequences across the boundary, SendData->ReadData loops. "
          "LEVEL 2 (-e2e N, one stack with a loopback NIC, stack.Pstack set by the driver, bundled http.Server + http.Client + websocket.Client/Upgrade over the stack's "
          "own TCP): 2N/3 HTTP exchanges with requests of G and random route tables; N/3 WebSocket sessions (1-4 messages each way of lengths {0,1,125,126,127,200,1000}, "
          "client frames sent with the bundled Push (unmasked) or as raw masked frames on the same connection, lock-step and burst); thorough adds sessions with 65535/65536/"
-         "65537-byte and 200 KiB messages both ways. Payloads CHOSEN by the driver above 256 bytes are pattern bytes regenerated inside Coq from (n, seed); everything the "
+         "65537-byte and 200 KiB messages both ways (spread over the output). Payloads CHOSEN by the driver above 256 bytes are pattern bytes regenerated inside Coq from (n, seed); everything the "
          "implementation RETURNS is written out in full. A case is non-trivial unless its input is empty (tag = case kind / branch class); distinct = distinct case lines",
     trusted_base=[KERNEL, CORR_TB, "Print Assumptions: every C20 theorem is closed under the global context (no axioms)",
                   "modelled, not verified: protocol/application/http/{pkg,request,request_client,response,server_patttern,connection}.go and "
